@@ -200,9 +200,11 @@ def _array_attr(ctx, o, c, name):
             return _mk_array(cx, [cx.call(t, [x], {}) for x in items])
         return SpecFn("ndarray.astype", astype)
     if name in ("copy", "flatten", "ravel"):
-        return SpecFn("ndarray." + name, lambda cx, a, k, _o=o: _mk_array(cx, list(cx.cell(_o).items), getattr(cx.cell(_o), "dtype", None)))
+        return SpecFn("ndarray." + name, lambda cx, a, k, _o=o: _mk_array(cx, list(cx.cell(_o).items), getattr(cx.cell(_o), "dtype", None), getattr(cx.cell(_o), "npdtype", None)))
     if name == "tolist":
         return SpecFn("ndarray.tolist", lambda cx, a, k, _o=o: cx.new_list(list(cx.cell(_o).items)))
+    if name == "dtype" and getattr(c, "npdtype", None) is not None:
+        return Ext(c.npdtype)
     if name == "dtype":
         return Ext(np.dtype({"int": np.int64, "bool": np.bool_, "str": np.str_}.get(getattr(c, "dtype", "float"), np.float64)))
     return _NOATTR
@@ -1800,12 +1802,36 @@ def _as_items(ctx, v):
     return None
 
 
-def _mk_array(ctx, items, dtype=None):
-    return ops.make_array(ctx, items, dtype)
+def _mk_array(ctx, items, dtype=None, npdtype=None):
+    return ops.make_array(ctx, items, dtype, npdtype)
+
+
+def _arr_like(ctx, v):
+    """(items, kind, fixed-width dtype) of a modelled array or of a concrete one-dimensional numpy array"""
+    if isinstance(v, Ext):
+        v = v.obj
+    if isinstance(v, np.ndarray) and v.ndim == 1 and v.dtype.kind in "iuf":
+        return v.tolist(), ("float" if v.dtype.kind == "f" else "int"), ops.fixed_width(v.dtype)
+    c = ops._array_cell(ctx, v)
+    if c is not None:
+        return list(c.items), getattr(c, "dtype", None), getattr(c, "npdtype", None)
+    return None
 
 
 @model(np.array, np.asarray)
 def m_np_array(ctx, args, kw):
+    dt0 = kw.get("dtype", args[1] if len(args) > 1 else None)
+    if isinstance(args[0], Sym) and isinstance(dt0, Ext) and args[0].k in ("int", "real"):
+        # a zero-dimensional array of one scalar behaves as that scalar, cast to the requested dtype
+        d = np.dtype(dt0.obj)
+        if d.kind in "iu":
+            x = ops.cast_elem(ctx, args[0], "int")
+            return ops.wrap_elem(x, d) if ops.fixed_width(d) is not None else x
+        if d.kind == "f":
+            return ops.cast_elem(ctx, args[0], "float")
+    src = _arr_like(ctx, args[0])
+    if src is not None and dt0 is None and any_sym(ctx, src[0]):
+        return _mk_array(ctx, src[0], src[1], src[2])   # np.asarray(array): same elements, same dtype
     items = _as_items(ctx, args[0])
     if items is None or not any_sym(ctx, items):
         return NotImplemented
@@ -1814,6 +1840,8 @@ def m_np_array(ctx, args, kw):
     want = None
     if isinstance(dt, Ext):
         want = "float" if dt.obj in (float, np.float64, np.float32) else ("int" if dt.obj in (int, np.int64, np.int32) else None)
+        if want is None and ops.fixed_width(dt.obj) is not None:
+            return _mk_array(ctx, list(items), "int", ops.fixed_width(dt.obj))
     return _mk_array(ctx, list(items), want)
 
 
@@ -1836,6 +1864,17 @@ def m_argsort(ctx, args, kw):
 
 @model(np.append)
 def m_np_append(ctx, args, kw):
+    src = _arr_like(ctx, args[0])
+    if src is not None and (isinstance(args[1], Sym) or any_sym(ctx, src[0])) and _as_items(ctx, args[1]) is None and not isinstance(args[1], (Ref, Ext, np.ndarray)):
+        # typed array followed by one scalar: the element is cast to the array's dtype when that is the common type
+        ctx.assumed.add("np.append(array, x): array followed by x")
+        one = args[1]
+        kind = src[1]
+        if kind == "int" and (isinstance(one, float) or (isinstance(one, Sym) and one.k == "real")):
+            kind, npd = "float", None
+        else:
+            npd = src[2]
+        return _mk_array(ctx, src[0] + [one], kind, npd)
     a, b = _as_items(ctx, args[0]), _as_items(ctx, args[1])
     if a is None or (not any_sym(ctx, a) and not any_sym(ctx, [args[1]])):
         return NotImplemented
